@@ -418,6 +418,162 @@ def runProg (k : Kymo) : List Track → List Op → List (Option Err) × List Tr
     | .ok g' => let r := runProg k g' ops; (none :: r.1, r.2)
     | .error e => let r := runProg k g ops; (some e :: r.1, r.2)
 
+/-! ### centroid refinement: `refine_peak_based_on_moment` without bias correction
+
+  `m0 = convolve2d(data, ones, "same")`, `subpixel_offset = convolve2d(data, [h … −h], "same") / (m0 + eps)`,
+  the pixel is moved by one while `|offset| > 0.5` (clamped to the image, at most `max_iter` rounds),
+  the refined coordinate is `pixel + offset[pixel]`.  One scan line at a time (`line[p]` = pixel `p`). -/
+
+/-- `data[p]` with the zero padding of `convolve2d(…, "same")` -/
+def dAt (line : List Rat) (p : Int) : Rat := if p < 0 then 0 else (line[p.toNat]?).getD 0
+
+/-- `convolve2d(data, kernel[:, None], "same")[p]` for a kernel of length `2h+1`:
+    `Σ_i kernel[i] · data[p + h − i]` -/
+def convSame (line : List Rat) (kernel : List Rat) (h : Nat) (p : Int) : Rat :=
+  ((List.range kernel.length).map fun (i : Nat) => (kernel[i]?).getD 0 * dAt line (p + (h : Int) - (i : Int))).sum
+
+/-- `np.arange(h, -(h + 1), -1)` -/
+def dirKernel (h : Nat) : List Rat := (List.range (2 * h + 1)).map fun (i : Nat) => (((h : Int) - (i : Int) : Int) : Rat)
+/-- `np.ones(2h + 1)` -/
+def meanKernel (h : Nat) : List Rat := List.replicate (2 * h + 1) 1
+
+def subpixelOffset (eps : Rat) (line : List Rat) (h : Nat) (p : Int) : Rat :=
+  convSame line (dirKernel h) h p / (convSame line (meanKernel h) h p + eps)
+
+def signInt (x : Rat) : Int := if 0 < x then 1 else if x < 0 then -1 else 0
+def absRat (x : Rat) : Rat := if x < 0 then -x else x
+
+/-- one round of the loop for one node: move by `sign(offset)` if `|offset| > 0.5`, then clamp -/
+def stepCoord (eps : Rat) (line : List Rat) (h : Nat) (c : Int) : Int :=
+  let o := subpixelOffset eps line h c
+  let c' := if 1 / 2 < absRat o then c + signInt o else c
+  if c' < 0 then 0 else if (line.length : Int) ≤ c' then (line.length : Int) - 1 else c'
+
+/-- the loop: stop as soon as a round changes nothing; `none` = "Iteration limit exceeded" -/
+def settle (eps : Rat) (line : List Rat) (h : Nat) : Nat → Int → Option Int
+  | 0, c => if stepCoord eps line h c = c then some c else none
+  | fuel + 1, c => if stepCoord eps line h c = c then some c else settle eps line h fuel (stepCoord eps line h c)
+
+/-- refined coordinate of a node: start at `round(coordinate)` (half to even), at most 99 moves -/
+def centroidCoord (eps : Rat) (img : List (List Rat)) (h : Nat) (t : Int) (x : Rat) : Option Rat :=
+  let line := (pyIndex img t).getD []
+  (settle eps line h 99 (roundHalfEven x)).map fun (c : Int) => (c : Rat) + subpixelOffset eps line h c
+
+/-- `refine_tracks_centroid(tracks, bias_correction=False)`: the refined coordinates of every track
+    (`none`: the iteration limit was hit somewhere → `RuntimeError` for the whole call) -/
+def refineCentroidCoords (eps : Rat) (img : List (List Rat)) (h : Nat) (g : List Track) :
+    Option (List (List Pt)) :=
+  g.mapM fun tr => (interpolate tr.pts).mapM fun p => (centroidCoord eps img h p.1 p.2).map fun y => (p.1, y)
+
+/-! ### the CSV file as text: version header, column titles, numeric cells
+
+  `export_kymotrackgroup_to_csv` writes `# Exported with pylake v… | track coordinates v4`, then
+  `# ` + the column titles joined by the delimiter, then one line of numbers per node.
+  `_read_txt` takes the track index from column 0 whatever its title, stores every other column in a
+  dict under its title (`zip(header, raw_data)`), and `import_kymotrackgroup_from_csv` looks the
+  columns up BY TITLE.  Titles are `List Char` (exact Python string equality / `in`). -/
+
+abbrev Title := List Char
+
+def tIdx : Title := ['t', 'r', 'a', 'c', 'k', ' ', 'i', 'n', 'd', 'e', 'x']
+def tTimePx : Title := ['t', 'i', 'm', 'e', ' ', '(', 'p', 'i', 'x', 'e', 'l', 's', ')']
+def tCoordPx : Title := ['c', 'o', 'o', 'r', 'd', 'i', 'n', 'a', 't', 'e', ' ', '(', 'p', 'i', 'x', 'e', 'l', 's', ')']
+def tTimeSec : Title := ['t', 'i', 'm', 'e', ' ', '(', 's', 'e', 'c', 'o', 'n', 'd', 's', ')']
+def tPosPre : Title := ['p', 'o', 's', 'i', 't', 'i', 'o', 'n', ' ', '(']
+def tCntPre : Title := ['c', 'o', 'u', 'n', 't', 's', ' ', '(', 's', 'u', 'm', 'm', 'e', 'd', ' ', 'o', 'v', 'e', 'r', ' ']
+def tCntPost : Title := [' ', 'p', 'i', 'x', 'e', 'l', 's', ')']
+def tMinDur : Title := ['m', 'i', 'n', 'i', 'm', 'u', 'm', ' ', 'o', 'b', 's', 'e', 'r', 'v', 'a', 'b', 'l', 'e', ' ', 'd', 'u', 'r', 'a', 't', 'i', 'o', 'n', ' ', '(', 's', 'e', 'c', 'o', 'n', 'd', 's', ')']
+def tMinLenV3 : Title := ['m', 'i', 'n', 'i', 'm', 'u', 'm', '_', 'l', 'e', 'n', 'g', 't', 'h', ' ', '(', '-', ')']
+def sCounts : Title := ['c', 'o', 'u', 'n', 't', 's']
+def uUm : Title := ['u', 'm']
+def uKbp : Title := ['k', 'b', 'p']
+def uPixel : Title := ['p', 'i', 'x', 'e', 'l']
+
+/-- `f"position ({position_units})"` -/
+def tPosition (unit : Title) : Title := tPosPre ++ unit ++ [')']
+/-- `f"counts (summed over {2 * sampling_width + 1} pixels)"` -/
+def tCounts (n : Nat) : Title := tCntPre ++ (toString n).toList ++ tCntPost
+
+structure CsvFile where
+  /-- the `v(\d)` of the version header line; `none`: the file has no such line (CSV version 1) -/
+  version : Option Nat
+  /-- `delimiter.join(column_titles)` split again -/
+  titles : List Title
+  /-- the data lines -/
+  rows : List (List Rat)
+deriving DecidableEq, Repr
+
+/-- `store_column` in the order of the code: five fixed columns, the counts column iff a sampling
+    width is given, the minimum-duration column iff no track lacks one. -/
+def exportTitles (unit : Title) (sw : Option Nat) (hasMd : Bool) : List Title :=
+  [tIdx, tTimePx, tCoordPx, tTimeSec, tPosition unit] ++
+    (match sw with | some w => [tCounts (2 * w + 1)] | none => []) ++ (if hasMd then [tMinDur] else [])
+
+/-- one line of `np.vstack(data).T` -/
+def rowCells (r : Row) : List Rat :=
+  [(r.idx : Rat), (r.t : Rat), r.c, r.sec, r.pos] ++
+    (match r.count with | some n => [(n : Rat)] | none => []) ++ (match r.minDur with | some d => [d] | none => [])
+
+/-- `export_kymotrackgroup_to_csv` down to the text of the file (`smp w` = `sample_from_image(w)`). -/
+def exportFile (k : Kymo) (unit : Title) (sw : Option Nat) (smp : Nat → Int → Rat → Int) (fmt : Rat → Rat)
+    (g : List Track) : Except Err CsvFile :=
+  match exportRows k (sw.map smp) fmt g with
+  | .ok rows => .ok ⟨some 4, exportTitles unit sw (g.all (·.minDur.isSome)), rows.map rowCells⟩
+  | .error e => .error e
+
+/-- `header_lines[0].rstrip().split(delimiter)`: `np.savetxt` prefixed the line with `# `, which stays
+    on the first title — the key of column 0 is never one of the titles looked up by name. -/
+def readerKeys : List Title → List Title
+  | [] => []
+  | t :: ts => (['#', ' '] ++ t) :: ts
+
+/-- `data[t]` after `for key, col in zip(header, raw_data): data[key] = …`: the index of the LAST
+    column stored under that title. -/
+def lastIdxFrom (t : Title) : List Title → Nat → Option Nat → Option Nat
+  | [], _, acc => acc
+  | x :: xs, i, acc => lastIdxFrom t xs (i + 1) (if x = t then some i else acc)
+
+def lastIdx (ts : List Title) (t : Title) : Option Nat := lastIdxFrom t ts 0 none
+
+/-- Python `pat in s` on strings -/
+def hasInfix (pat : List Char) : List Char → Bool
+  | [] => pat.isEmpty
+  | c :: cs => pat.isPrefixOf (c :: cs) || hasInfix pat cs
+
+def cell (r : List Rat) (j : Nat) : Rat := (r[j]?).getD 0
+
+/-- `_read_txt` + the column selection of `import_kymotrackgroup_from_csv`:
+    * no data line, or lines of different lengths (`np.loadtxt` → `ValueError`): `IOError`;
+    * `zip(header, raw_data)` stops at the shorter of titles / columns;
+    * `time (pixels)` and `coordinate (pixels)` must be keys, else `IOError`;
+    * the minimum-duration column is `minimum_length (-)` for CSV version 3 and
+      `minimum observable duration (seconds)` otherwise; absent → `None`;
+    * the counts column is the first key that contains `counts` (dict keys are in order of first
+      insertion, so this is the first such title), read from the last column stored under it;
+    * `time.astype(int)` truncates. -/
+def importFile (k : Kymo) (f : CsvFile) : Except Err (List Track) :=
+  match f.rows with
+  | [] => .error .io
+  | r0 :: _ =>
+    if f.rows.any (fun r => r.length != r0.length) then .error .io
+    else
+      let ts := (readerKeys f.titles).take r0.length
+      match lastIdx ts tTimePx, lastIdx ts tCoordPx with
+      | some jt, some jc =>
+        let jm := lastIdx ts (if f.version = some 3 then tMinLenV3 else tMinDur)
+        let jn := (ts.find? (hasInfix sCounts)).bind (lastIdx ts)
+        importGroup k (f.rows.map fun r =>
+          ⟨(trunc (cell r 0)).toNat, trunc (cell r jt), cell r jc, 0, 0,
+           jn.map fun j => trunc (cell r j), jm.map fun j => cell r j⟩)
+      | _, _ => .error .io
+
+/-- `group.save(file)` then `import_kymotrackgroup_from_csv(file, kymo)`, through the text of the file -/
+def fileRoundtrip (k : Kymo) (unit : Title) (sw : Option Nat) (smp : Nat → Int → Rat → Int) (fmt : Rat → Rat)
+    (g : List Track) : Except Err (List Track) :=
+  match exportFile k unit sw smp fmt g with
+  | .ok f => importFile k f
+  | .error e => .error e
+
 /-! ### protocol -/
 open Verif.Proto
 
@@ -516,15 +672,42 @@ def op? (s : String) : Option Op :=
 def showErrs (l : List (Option Err)) : String :=
   showList (fun | none => "-" | some (e : Err) => e.name) l
 
+
+/-- titles on the wire: `|`-separated, blanks written `~` -/
+def showTitle (t : Title) : String := String.ofList (t.map fun c => if c = ' ' then '~' else c)
+def title? (s : String) : Title := s.toList.map fun c => if c = '~' then ' ' else c
+def titles? (s : String) : List Title := if s == "-" then [] else (s.splitOn "|").map title?
+
+def unit? (s : String) : Option Title :=
+  if s == "um" then some uUm else if s == "kbp" then some uKbp else if s == "pixel" then some uPixel else none
+
+/-- `N` or `w:o` → sampling width and pixel-origin offset -/
+def samplingW? (s : String) : Option (Option (Nat × Rat)) :=
+  if s == "N" then some none
+  else match s.splitOn ":" with
+    | [w, o] => do
+      let w ← nat? w
+      let off : Rat ← if o == "1" then some (1 / 2) else if o == "0" then some 0 else none
+      some (some (w, off))
+    | _ => none
+
 /-- ops:
   `c17.export px pxUm lt sampling img T C M K`    rows of the file (or the error)
   `c17.roundtrip …same…`                           the re-imported group
+  `c17.roundtrip2 …same…`                          the group after saving and importing the re-imported group again
   `c17.roundtripu4 …`, `c17.roundtripu8 …`         the same with the pinned (unrepaired) F4 / F8 code
   `c17.read px pxUm lt [idx|t|c|count|mindur,…]`   import of a hand-written file
   `c17.prog px pxUm lt T C M K op…`                errors per op and the final group
   `c17.refine T C M K`                             scan lines of each centroid-refined track
+  `c17.titles unit sampling hasMd`                 the column titles `export_kymotrackgroup_to_csv` writes
+  `c17.exportfile px pxUm lt unit sampling img T C M K`     version, titles and cells of the written file
+  `c17.fileroundtrip px pxUm lt unit sampling img T C M K`  save + import through titles and cells
+  `c17.readfile px pxUm lt version titles rows`    import of a file given as version / titles / cells
+  `c17.centroid h eps img T C M K`                 lines and coordinates after centroid refinement without bias correction
+  `c17.refine2 T C M K`                            scan lines of each track after refining the refined tracks again
   `c17.gauss skip w missing T C M K`               scan lines + minimum duration of each Gaussian-refined track
   `c17.fmt6 p/q`                                   value printed by `%.6e`
+  `c17.samples w off img [t,…] [c,…]`              `sample_from_image` of a track
   `c17.sample w off img t c`                       `_sum_track_signal` of one node  -/
 def handleFile (op px pxUm lt smp img t c m k : String) : Option String := do
   let ky ← kymo? px pxUm lt
@@ -535,6 +718,10 @@ def handleFile (op px pxUm lt smp img t c m k : String) : Option String := do
     some (showExcept (showList showRow) (exportRows ky sample fmt6e g))
   else if op == "c17.roundtrip" then
     some (showExcept showGroup (roundtrip ky sample fmt6e g))
+  else if op == "c17.roundtrip2" then
+    some (showExcept showGroup (match roundtrip ky sample fmt6e g with
+      | .ok g' => roundtrip ky sample fmt6e g'
+      | .error e => .error e))
   else
     match exportRows ky sample fmt6e g with
     | .error e => some e.name
@@ -545,6 +732,7 @@ def handleFile (op px pxUm lt smp img t c m k : String) : Option String := do
 def handle : List String → Option String
   | ["c17.export", px, pxUm, lt, smp, img, t, c, m, k] => handleFile "c17.export" px pxUm lt smp img t c m k
   | ["c17.roundtrip", px, pxUm, lt, smp, img, t, c, m, k] => handleFile "c17.roundtrip" px pxUm lt smp img t c m k
+  | ["c17.roundtrip2", px, pxUm, lt, smp, img, t, c, m, k] => handleFile "c17.roundtrip2" px pxUm lt smp img t c m k
   | ["c17.roundtripu4", px, pxUm, lt, smp, img, t, c, m, k] => handleFile "c17.roundtripu4" px pxUm lt smp img t c m k
   | ["c17.roundtripu8", px, pxUm, lt, smp, img, t, c, m, k] => handleFile "c17.roundtripu8" px pxUm lt smp img t c m k
   | ["c17.read", px, pxUm, lt, rows] => do
@@ -563,6 +751,45 @@ def handle : List String → Option String
   | ["c17.refine", t, c, m, k] => do
     let g ← group? t c m k
     some (showListList showInt (refineSpan g) ++ " " ++ showList showOptRat (g.map (·.minDur)))
+  | ["c17.titles", unit, smp, hasMd] => do
+    let u ← unit? unit; let sw ← samplingW? smp; let b ← bool? hasMd
+    some ("|".intercalate ((exportTitles u (sw.map (·.1)) b).map showTitle))
+  | ["c17.exportfile", px, pxUm, lt, unit, smp, img, t, c, m, k] => do
+    let ky ← kymo? px pxUm lt
+    let u ← unit? unit
+    let img ← intListList? img
+    let sw ← samplingW? smp
+    let off : Rat := (sw.map (·.2)).getD 0
+    let g ← group? t c m k
+    match exportFile ky u (sw.map (·.1)) (fun w => sumSignal img w off) fmt6e g with
+    | .error e => some e.name
+    | .ok f => some (showOptInt' (f.version.map Int.ofNat) ++ " " ++ "|".intercalate (f.titles.map showTitle) ++ " " ++
+        showListList showRat f.rows)
+  | ["c17.fileroundtrip", px, pxUm, lt, unit, smp, img, t, c, m, k] => do
+    let ky ← kymo? px pxUm lt
+    let u ← unit? unit
+    let img ← intListList? img
+    let sw ← samplingW? smp
+    let off : Rat := (sw.map (·.2)).getD 0
+    let g ← group? t c m k
+    some (showExcept showGroup (fileRoundtrip ky u (sw.map (·.1)) (fun w => sumSignal img w off) fmt6e g))
+  | ["c17.readfile", px, pxUm, lt, version, titles, rows] => do
+    let ky ← kymo? px pxUm lt
+    let v ← if version == "N" then some none else (nat? version).map some
+    let rows ← ratListList? rows
+    some (showExcept showGroup (importFile ky ⟨v, titles? titles, rows⟩))
+  | ["c17.centroid", h, eps, img, t, c, m, k] => do
+    let h ← nat? h; let eps ← rat? eps
+    let img ← ratListList? img
+    let g ← group? t c m k
+    match refineCentroidCoords eps img h g with
+    | none => some Err.runtime.name
+    | some r => some (showListList showInt (r.map fun tr => tr.map (·.1)) ++ " " ++
+        showListList showRat (r.map fun tr => tr.map (·.2)))
+  | ["c17.refine2", t, c, m, k] => do
+    let g ← group? t c m k
+    some (showListList showInt (refineSpan (refineCentroid (fun _ c => c) (fun _ _ => 0) g)) ++ " " ++
+      showList showOptRat (g.map (·.minDur)))
   | ["c17.gauss", skip, w, missing, t, c, m, k] => do
     let skip ← bool? skip; let w ← int? w; let missing ← bool? missing
     let g ← group? t c m k
@@ -571,6 +798,13 @@ def handle : List String → Option String
   | ["c17.fmt6", x] => do
     let x ← rat? x
     some (showRat (fmt6e x))
+  | ["c17.samples", w, off, img, ts, cs] => do
+    let w ← nat? w
+    let off : Rat ← if off == "1" then some (1 / 2) else if off == "0" then some 0 else none
+    let img ← intListList? img
+    let ts ← intList? ts; let cs ← ratList? cs
+    if ts.length != cs.length then none
+    else some (showIntList ((ts.zip cs).map fun p => sumSignal img w off p.1 p.2))
   | ["c17.sample", w, off, img, t, c] => do
     let w ← nat? w
     let off : Rat ← if off == "1" then some (1 / 2) else if off == "0" then some 0 else none
